@@ -1,0 +1,40 @@
+//go:build verif
+
+package queue
+
+import "github.com/lindb/lindb/pkg/queue/page"
+
+// Verification exports for property C05 (WAL queue). Compiled only with -tags verif.
+
+// VerifC05SetPageFactory swaps the page-factory constructor NewQueue uses (the package's own
+// test seam newPageFactoryFunc) so that the harness can wrap every MappedPage. The returned
+// function restores the previous constructor.
+func VerifC05SetPageFactory(f func(path string, pageSize int) (page.Factory, error)) (restore func()) {
+	old := newPageFactoryFunc
+	newPageFactoryFunc = f
+	return func() { newPageFactoryFunc = old }
+}
+
+// VerifC05Cursor returns the in-memory write cursor of a queue created by NewQueue:
+// data page index, next message offset, index page index. It reads without the lock; the
+// harness calls it only while no append is running or all appenders are parked.
+func VerifC05Cursor(q Queue) (dataPageIndex int64, messageOffset int, indexPageIndex int64, ok bool) {
+	qq, ok := q.(*queue)
+	if !ok {
+		return 0, 0, 0, false
+	}
+	return qq.dataPageIndex, qq.messageOffset, qq.indexPageIndex, true
+}
+
+// VerifC05LockHeld reports whether the queue's rwMutex is held right now (TryLock probe).
+func VerifC05LockHeld(q Queue) bool {
+	qq, ok := q.(*queue)
+	if !ok {
+		return false
+	}
+	if qq.rwMutex.TryLock() {
+		qq.rwMutex.Unlock()
+		return false
+	}
+	return true
+}
